@@ -142,7 +142,14 @@ func ximageCompare(k *mon.Case, f *sfnt.Font, info *fontgen.Info, out []byte, de
 		k.Fail("mismatch", "ximage:units-per-em", "x/image sees %d units per em, font has %d (%s)", xf.Upm, f.UnitsPerEm, desc)
 	}
 	// character mapping
-	if f.CMapTable != nil && info.CMap != "legacy" {
+	macFormat6 := false // x/image translates Mac Roman codes for format 0 only
+	for _, cl := range info.Classes {
+		macFormat6 = macFormat6 || cl == "cmap:mac-format6"
+	}
+	if macFormat6 {
+		k.Class("ximage:cmap-skipped:mac-format6")
+	}
+	if f.CMapTable != nil && info.CMap != "legacy" && !macFormat6 {
 		sub, err := f.CMapTable.GetBest()
 		if err == nil {
 			check := func(r rune) {
